@@ -11,6 +11,11 @@ from .interp import Target, vbytes, vint, vsize
 from . import prims
 
 
+class PeelFirst(Undecided):
+    """carried state of a shape without placeholders (an Option, a bool, ...) changes in the body:
+    the first iteration has to be executed on its own."""
+
+
 def split_path(path):
     for i, s in enumerate(path):
         if s[0] == "br":
@@ -126,6 +131,19 @@ def veq(a, b, F):
     return False
 
 
+def ranged_ref(ip, st, pv):
+    """a reference to a whole byte buffer as the reference to its full range (so that a slice variable
+    initialised from an array and then advanced has one shape)."""
+    if pv[0] == "ref" and not (pv[1].path and pv[1].path[-1][0] == "br"):
+        try:
+            tv = ip.load(st, pv[1], log=False)
+            if tv[0] == "bytes":
+                return ("ref", ip.br(pv[1], ZERO, T.blen(tv[1])))
+        except Undecided:
+            pass
+    return pv
+
+
 def run_iteration(ip, st, fr, H, var, N, placeholders, region=None, cont=None, runner=None):
     s = st.fork()
     v = Lin.sym(var)
@@ -140,6 +158,7 @@ def run_iteration(ip, st, fr, H, var, N, placeholders, region=None, cont=None, r
     for (cell, fpath), ph in placeholders.items():
         ip.store(s, Target(cell, fpath), ph)
     s.wlog = []
+    s.rbw = set()
     c0 = len(s.conds)
     o0 = len(s.oblig)
     e0 = len(s.events)
@@ -208,8 +227,55 @@ def summarise_loop(ip, st, fr, H):
             is_iter = False
     except prims.LoopProbe as lp:
         it = lp.it
+        it_tg = lp.tg
     if is_iter:
+        # an iterator with a seam (chain): one loop per segment, the iterator cell holding a window
+        if it_tg is not None and prims.iter_breaks(ip, st, it):
+            results = []
+            for s0, segs in prims.iter_segments(ip, st, it):
+                if len(segs) == 1:
+                    results.extend(_summarise_core(ip, s0, fr, H, segs[0][1], var, {}, None, None, None, True))
+                    continue
+                states = [s0]
+                for lo, cnt in segs:
+                    nxt = []
+                    for s in states:
+                        for kk in [x for x, m in s.loopmode.items() if x[0] == fr.id and m[0] == "done"]:
+                            del s.loopmode[kk]
+                        ip.store(s, it_tg, ("iter", "win", it, lo, cnt))
+                        nxt.extend(_summarise_core(ip, s, fr, H, cnt, T.fresh("$i"), {}, None, None, None, True))
+                    states = nxt
+                results.extend(states)
+            return results
         N = prims.iter_count(ip, st, it)
+        try:
+            return _summarise_core(ip, st, fr, H, N, var, affine, region, cont, None, is_iter)
+        except PeelFirst:
+            if it_tg is None:
+                raise
+        # peel: iteration 0 on its own, then the rest of the iterator as a window
+        results = []
+        for s0, nonempty in prims.fork_on(st, ("ge", N - 1)):
+            if not nonempty:
+                s0.loopmode[key] = ("done",)
+                results.append(s0)
+                continue
+            s0.loopmode[key] = ("iterk", 0)
+            outs = ip.exec_from(s0, fr, H, stop_at=H, start=True)
+            for kind, s1, _ in outs:
+                if kind == "panic":
+                    st.oblig.append({"kind": "panic-path", "fn": fr.body["path"], "crate": fr.crate.name, "ok": False, "detail": "explicit panic reachable inside loop"})
+                    continue
+                if kind != "stop":
+                    raise Undecided("early exit (%s) from loop in %s" % (kind, fr.body["path"]))
+                for kk in [x for x, m in s1.loopmode.items() if x[0] == fr.id and (m[0] == "done" or x == key)]:
+                    del s1.loopmode[kk]
+                ip.store(s1, it_tg, ("iter", "win", it, ONE, N - 1))
+                try:
+                    results.extend(_summarise_core(ip, s1, fr, H, N - 1, T.fresh("$i"), {}, None, None, None, True))
+                except PeelFirst as e:
+                    raise Undecided(str(e))
+        return results
     else:
         from .interp import natural_loop
         region = natural_loop(fr.body, H)
@@ -233,6 +299,95 @@ def summarise_call_loop(ip, st, fr, N, runner):
     return _summarise_core(ip, st, fr, None, lin(N), T.fresh("$i"), {}, None, None, runner, True)
 
 
+def _discover_affine(ip, st, fr, H, N, var, region, cont, runner):
+    """{loc: affine description} of the sizes / slice references written in the loop body whose new
+    value is the old one plus a constant (independent of the index and of every other carried value)."""
+    try:
+        outsA, _, _, _ = run_iteration(ip, st, fr, H, var, N, {}, region, cont, runner)
+    except Undecided:
+        return {}
+    W = []
+    for s in outsA:
+        for cell, path in s.wlog:
+            if cell in st.heap:
+                fpath, br, rest = split_path(path)
+                if br is None and not rest and (cell, fpath) not in W:
+                    W.append((cell, fpath))
+    ph = {}
+    syms = {}
+    for loc in W:
+        try:
+            pv = ranged_ref(ip, st, ip.load(st, Target(loc[0], loc[1]), log=False))
+        except Undecided:
+            continue
+        if pv[0] == "size":
+            nm = T.fresh("$a")
+            ph[loc] = vsize(Lin.sym(nm))
+            syms[nm] = (loc, 0, pv[1])
+        elif pv[0] == "ref" and pv[1].path and pv[1].path[-1][0] == "br":
+            n1, n2 = T.fresh("$a"), T.fresh("$a")
+            tg = pv[1]
+            ph[loc] = ("ref", Target(tg.cell, tg.path[:-1] + (("br", Lin.sym(n1), Lin.sym(n2)),)))
+            syms[n1] = (loc, 1, tg.path[-1][1])
+            syms[n2] = (loc, 2, tg.path[-1][2])
+    if not ph:
+        return {}
+    # candidate invariants of the placeholders (verified from the strides below): a size stays
+    # non-negative; a slice variable is consumed from the front (start >= original start, same end)
+    sG = st.fork()
+    guessed = []
+    for nm, (loc, which, orig) in syms.items():
+        if which in (0, 2) and st.F.prove_ge(orig):
+            sG.F.add_ge(Lin.sym(nm))
+    for loc, pv in ph.items():
+        if pv[0] == "ref":
+            br = pv[1].path[-1]
+            o = ranged_ref(ip, st, ip.load(st, Target(loc[0], loc[1]), log=False))[1].path[-1]
+            sG.F.add_ge(br[1] - o[1])
+            sG.F.add_eq(br[1] + br[2] - o[1] - o[2])
+            guessed.append(loc)
+    try:
+        outs, _, _, _ = run_iteration(ip, sG, fr, H, var, N, dict(ph), region, cont, runner)
+    except Undecided:
+        return {}
+    steps = {}
+    for nm, (loc, which, orig) in syms.items():
+        vals = set()
+        for s1 in outs:
+            try:
+                nv = ip.load(s1, Target(loc[0], loc[1]), log=False)
+            except Undecided:
+                vals.add(None)
+                continue
+            if which == 0:
+                vals.add(nv[1] - Lin.sym(nm) if nv[0] == "size" else None)
+            else:
+                ok = nv[0] == "ref" and nv[1].path and nv[1].path[-1][0] == "br"
+                vals.add(nv[1].path[-1][which] - Lin.sym(nm) if ok else None)
+        if len(vals) != 1:
+            continue
+        step = vals.pop()
+        if step is None or (step.symbols() & (set(syms) | {var})) or any(x.startswith("$") for x in step.symbols()):
+            continue
+        steps[(loc, which)] = (orig, step)
+    for loc in guessed:
+        if (loc, 1) in steps and (loc, 2) in steps:
+            s1_, s2_ = steps[(loc, 1)][1], steps[(loc, 2)][1]
+            if st.F.prove_ge(s1_) and (s1_ + s2_) == ZERO:
+                continue
+        return {}      # the assumed shape of a slice variable is not an invariant: no closed forms
+    affine = {}
+    for loc, pv in ph.items():
+        if pv[0] == "size" and (loc, 0) in steps:
+            o, sp = steps[(loc, 0)]
+            if sp != ZERO:
+                affine[loc] = ("size", o, sp)
+        elif pv[0] == "ref" and (loc, 1) in steps and (loc, 2) in steps:
+            base = ranged_ref(ip, st, ip.load(st, Target(loc[0], loc[1]), log=False))[1]
+            affine[loc] = ("ref", base, steps[(loc, 1)], steps[(loc, 2)])
+    return affine
+
+
 def _summarise_core(ip, st, fr, H, N, var, affine, region, cont, runner, is_iter):
     key = (fr.id, H) if H is not None else None
     if st.F.prove_eq(N):
@@ -249,6 +404,11 @@ def _summarise_core(ip, st, fr, H, N, var, affine, region, cont, runner, is_iter
                 nxt.extend(runner(s, lin(k)))
             states = nxt
         return states
+    # 1b. iterator-driven loops: counters and slice variables advancing by a constant stride are
+    # given their closed form up front (as condition-driven loops get from their trip-count analysis),
+    # so that `buf[i]` / `rest[..n]` inside the body is an element region of the index
+    if is_iter and not affine:
+        affine = _discover_affine(ip, st, fr, H, N, var, region, cont, runner)
     # 2. discovery pass
     fixed = {loc: affine_value(a, Lin.sym(var)) for loc, a in affine.items()}
     outsA, c0, _, _ = run_iteration(ip, st, fr, H, var, N, dict(fixed), region, cont, runner)
@@ -278,7 +438,7 @@ def _summarise_core(ip, st, fr, H, N, var, affine, region, cont, runner, is_iter
     for loc in carried:
         cell, fpath = loc
         try:
-            pv = ip.load(st, Target(cell, fpath), log=False)
+            pv = ranged_ref(ip, st, ip.load(st, Target(cell, fpath), log=False))
         except Undecided:
             continue
         pre[loc] = pv
@@ -412,7 +572,7 @@ def _summarise_core(ip, st, fr, H, N, var, affine, region, cont, runner, is_iter
             deps = value_names(gv) & set(names)
             unresolved = {d for d in deps if names[d] not in V}
             own = phname.get(loc)
-            if loc in refph:
+            if loc in refph and (set(refph[loc]) & value_names(gv)):
                 # slice reference advancing by a constant stride
                 n1, n2 = refph[loc]
                 if gv[0] == "ref" and gv[1].cell == pre[loc][1].cell and gv[1].path[:-1] == pre[loc][1].path[:-1] and gv[1].path and gv[1].path[-1][0] == "br":
@@ -430,6 +590,11 @@ def _summarise_core(ip, st, fr, H, N, var, affine, region, cont, runner, is_iter
                 raise Undecided("slice variable %r does not advance by a constant stride" % (loc,))
             if not unresolved:
                 # last-value
+                if loc not in ph and pre[loc][0] not in ("bytes", "int", "size", "ref") and not veq(gv, pre[loc], Fi) \
+                        and any(loc[0] in (s_.rbw or ()) for s_ in outs):
+                    # the body ran with the PRE-LOOP value of this cell standing for its value in every
+                    # iteration, which is wrong as soon as the body changes it
+                    raise PeelFirst("carried %s value %r changes inside the loop" % (pre[loc][0], loc))
                 if veq(gv, pre[loc], Fi):
                     V[loc] = pre[loc]
                     final[loc] = pre[loc]
@@ -608,7 +773,7 @@ def while_trip_count(ip, st, fr, H, var, region):
     syms = {}
     for loc in W:
         try:
-            pv = ip.load(st, Target(loc[0], loc[1]), log=False)
+            pv = ranged_ref(ip, st, ip.load(st, Target(loc[0], loc[1]), log=False))
         except Undecided:
             continue
         if pv[0] == "size":
@@ -634,7 +799,7 @@ def while_trip_count(ip, st, fr, H, var, region):
     for loc, v in ph.items():
         if v[0] == "ref":
             br = v[1].path[-1]
-            o = ip.load(st, Target(loc[0], loc[1]), log=False)[1].path[-1]
+            o = ranged_ref(ip, st, ip.load(st, Target(loc[0], loc[1]), log=False))[1].path[-1]
             sB.F.add_ge(br[1] - o[1])
             sB.F.add_eq(br[1] + br[2] - o[1] - o[2])
             guessed.append(loc)
@@ -643,12 +808,25 @@ def while_trip_count(ip, st, fr, H, var, region):
     c0 = len(sB.conds)
     outs = ip.exec_from(sB, fr, H, stop_at=H, start=True, region=region)
     stops = [s for k, s, _ in outs if k == "stop"]
-    if len(stops) != 1:
-        raise Undecided("loop at bb%d of %s: %d ways around the loop from a symbolic state" % (H, fr.body["path"], len(stops)))
+    if not stops:
+        raise Undecided("loop at bb%d of %s: no way around the loop from a symbolic state" % (H, fr.body["path"]))
     s1 = stops[0]
-    conds = [c for c in s1.conds[c0:]]
-    if len(conds) != 1 or conds[0][0] not in ("ge", "lt"):
-        raise Undecided("loop condition of %s is not a single linear comparison: %r" % (fr.body["path"], conds))
+    if len(stops) == 1:
+        conds = [c for c in s1.conds[c0:]]
+        if len(conds) != 1 or conds[0][0] not in ("ge", "lt"):
+            raise Undecided("loop condition of %s is not a single linear comparison: %r" % (fr.body["path"], conds))
+    else:
+        # branches inside the body: every way around starts with the same loop condition and the
+        # ways differ right after it (a compound loop condition would give a longer common prefix)
+        cl = [s.conds[c0:] for s in stops]
+        if any(not x for x in cl) or any(x[0] != cl[0][0] for x in cl) or cl[0][0][0] not in ("ge", "lt"):
+            raise Undecided("loop at bb%d of %s: %d ways around the loop that do not share one linear loop condition" % (H, fr.body["path"], len(stops)))
+        k = 1
+        while all(len(x) > k for x in cl) and all(x[k] == cl[0][k] for x in cl):
+            k += 1
+        if k != 1:
+            raise Undecided("loop at bb%d of %s: compound loop condition" % (H, fr.body["path"]))
+        conds = [cl[0][0]]
     c = conds[0]
     G = c[1] if c[0] == "ge" else (-c[1] - 1)
     # strides
@@ -656,15 +834,22 @@ def while_trip_count(ip, st, fr, H, var, region):
     env = {}
     steps = {}
     for nm, (loc, which, orig) in syms.items():
-        nv = ip.load(s1, Target(loc[0], loc[1]), log=False)
-        if which == 0:
-            if nv[0] != "size":
-                raise Undecided("counter became %s" % nv[0])
-            step = nv[1] - Lin.sym(nm)
-        else:
-            if nv[0] != "ref" or not nv[1].path or nv[1].path[-1][0] != "br":
-                raise Undecided("slice variable lost its range")
-            step = nv[1].path[-1][which] - Lin.sym(nm)
+        step = None
+        for sk in stops:
+            nv = ip.load(sk, Target(loc[0], loc[1]), log=False)
+            if which == 0:
+                if nv[0] != "size":
+                    raise Undecided("counter became %s" % nv[0])
+                stepk = nv[1] - Lin.sym(nm)
+            else:
+                if nv[0] != "ref" or not nv[1].path or nv[1].path[-1][0] != "br":
+                    raise Undecided("slice variable lost its range")
+                stepk = nv[1].path[-1][which] - Lin.sym(nm)
+            if step is not None and stepk != step:
+                # advances differently on different ways around the loop: not affine
+                step = Lin.sym(nm) * 0 + Lin.sym(var)
+                break
+            step = stepk
         if step.symbols() & (set(syms) | {var}):
             if nm in G.symbols():
                 raise Undecided("loop condition depends on %r which does not advance by a constant stride" % (loc,))
@@ -692,7 +877,7 @@ def while_trip_count(ip, st, fr, H, var, region):
             o, sp = steps[(loc, 0)]
             affine[loc] = ("size", o, sp)
         elif pv[0] == "ref" and (loc, 1) in steps and (loc, 2) in steps:
-            base = ip.load(st, Target(loc[0], loc[1]), log=False)[1]
+            base = ranged_ref(ip, st, ip.load(st, Target(loc[0], loc[1]), log=False))[1]
             affine[loc] = ("ref", base, steps[(loc, 1)], steps[(loc, 2)])
     F = st.F
     if not F.prove_ge(B - 1):
